@@ -1291,10 +1291,13 @@ fn csv_doc(r: &mut Rng, cfg: i64) -> (Vec<u8>, String) {
 }
 fn gen_csv(tier: &str, r: &mut Rng, emit: &mut dyn FnMut(Case), count: usize) {
     // tiny hand-written inputs: all 2^(n-1) partitions
-    let tiny: [(&[u8], i64); 10] = [
+    let tiny: [(&[u8], i64); 12] = [
         (b"1,a\r\n2,\"b\"\r\n", 0), (b"\"a\"\"b\",c,d\n", 1), (b"1,\"x\ny\"\n2,z", 0), (b"a,b,c\r\n\r\nd,e,f", 1),
         (b"\xe2\x82\xac\n\"\xf0\x9f\x98\x80\"\n", 3), (b"1,\"\"\n,\n", 0), (b"\"a\\\"b\"\n", 3 | CSV_ESCAPE), (b"a;b;c$d;e;f$", 1 | CSV_SEMI | CSV_TERM),
         (b"#c\nx\n#d\ny\n", 3 | CSV_COMMENT), (b"1\n2,b\n3\n", 0 | CSV_TRUNC),
+        // short rows that still contain delimiters, in 3- and 4-column schemas (padding must count the fields of the whole row,
+        // not of the last read_record call: seed C14-m6)
+        (b"1,2,3\n4,5\n6\n7,8,9\n", 1 | CSV_TRUNC), (b"1,2.5\n2,1.5,true\n3\n4,0.5,false,w\n", 2 | CSV_TRUNC),
     ];
     for (inp, cfg) in tiny {
         for bs in [1usize, 2, 1024] {
